@@ -6,6 +6,7 @@ import (
 	"strings"
 
 	"github.com/hashicorp/hcl/v2"
+	"github.com/hashicorp/hcl/v2/ext/dynblock"
 	"github.com/hashicorp/hcl/v2/hcldec"
 	"github.com/hashicorp/hcl/v2/hclsyntax"
 	hcljson "github.com/hashicorp/hcl/v2/json"
@@ -237,6 +238,69 @@ func c08Case(c *core.Case) {
 				cls = "type-nonconformance/Block" + kind + "Spec-unconsistent-types-answered-with-DynamicVal"
 			}
 			c.Violation(cls, fmt.Sprintf("%v\nvalue %s\ndiagnostics: %s", errs, valStr(val), diagStr(diags)), nil)
+			return
+		}
+		c.NonTrivial("directed:" + src + kind)
+		return
+	}
+	if c.Index%50 == 2 {
+		// directed: blocks generated by a dynamic block with too few, the right number of, or too
+		// many labels, under every spec that reads labels: an error (or the value), never a panic
+		want := 1 + r.Intn(2)
+		have := r.Intn(4)
+		var ls []string
+		for i := 0; i < have; i++ {
+			ls = append(ls, fmt.Sprintf("\"l%d\"", i))
+		}
+		labelsArg := "  labels = [" + strings.Join(ls, ", ") + "]\n"
+		if have == 0 && gen.Chance(r, 0.5) {
+			labelsArg = ""
+		}
+		coll := gen.Pick(r, []string{"[1]", "[1, 2]", "unk", "{a = 1}"})
+		src := "dynamic \"b\" {\n  for_each = " + coll + "\n" + labelsArg + "  content {\n    a = 1\n  }\n}\n"
+		names := []string{"k1", "k2"}[:want]
+		nested := hcldec.ObjectSpec{"a": &hcldec.AttrSpec{Name: "a", Type: cty.Number}}
+		var spec hcldec.Spec
+		kind := gen.Pick(r, []string{"map", "object", "list-with-label-spec", "single-with-label-default"})
+		switch kind {
+		case "map":
+			spec = &hcldec.BlockMapSpec{TypeName: "b", LabelNames: names, Nested: nested}
+		case "object":
+			spec = &hcldec.BlockObjectSpec{TypeName: "b", LabelNames: names, Nested: nested}
+		case "list-with-label-spec":
+			n := hcldec.ObjectSpec{"a": nested["a"]}
+			for i := 0; i < want; i++ {
+				n[fmt.Sprintf("l%d", i)] = &hcldec.BlockLabelSpec{Index: i, Name: names[i]}
+			}
+			spec = &hcldec.BlockListSpec{TypeName: "b", Nested: n}
+		default:
+			n := hcldec.ObjectSpec{"a": nested["a"], "name": &hcldec.DefaultSpec{Primary: &hcldec.AttrSpec{Name: "name", Type: cty.String}, Default: &hcldec.BlockLabelSpec{Index: want - 1, Name: names[want-1]}}}
+			spec = &hcldec.BlockTupleSpec{TypeName: "b", Nested: n}
+		}
+		c.SetInput(fmt.Sprintf("%s\nSPEC: %s asking for %d label(s)", src, kind, want))
+		f, pd := hclsyntax.ParseConfig([]byte(src), "d.hcl", hcl.InitialPos)
+		if pd.HasErrors() {
+			panic("C08 directed dynamic body does not parse: " + src)
+		}
+		ctx := &hcl.EvalContext{Variables: map[string]cty.Value{"unk": cty.UnknownVal(cty.List(cty.String))}}
+		val, diags := hcldec.Decode(dynblock.Expand(f.Body, ctx), spec, ctx)
+		c.Evals(1)
+		c.Count("directed:dynamic-block-label-count/" + kind)
+		if errs := val.Type().TestConformance(hcldec.ImpliedType(spec)); len(errs) > 0 {
+			if kind == "map" && want == 2 && val.Type().IsMapType() && val.LengthInt() == 0 {
+				// the adjudicated shape: no block survives, and a two-label map spec answers with the one-level empty map
+				c.Violation("type-nonconformance/BlockMapSpec-multi-label-empty", fmt.Sprintf("decoding a body without usable b blocks with a two-label BlockMapSpec gives %s, implied type is %s", valStr(val), hcldec.ImpliedType(spec).FriendlyName()), nil)
+				return
+			}
+			c.Violation("type-nonconformance/dynamic-block-label-count/"+kind, fmt.Sprintf("%v\nvalue %s\ndiagnostics: %s", errs, valStr(val), diagStr(diags)), nil)
+			return
+		}
+		if have != want && !diags.HasErrors() {
+			c.Violation("violation-not-reported/dynamic-block-label-count/"+kind, fmt.Sprintf("the dynamic block gives %d label(s), the specification asks for %d, and no error is reported; value %s", have, want, valStr(val)), nil)
+			return
+		}
+		if have == want && diags.HasErrors() && coll == "[1]" {
+			c.Violation("spurious-error/dynamic-block-label-count/"+kind, fmt.Sprintf("the dynamic block gives the %d label(s) asked for but decoding reports: %s", want, diagStr(diags)), nil)
 			return
 		}
 		c.NonTrivial("directed:" + src + kind)
